@@ -68,6 +68,7 @@ impl Case {
             mount_boundary: false,
             entropy: 7,
             umask: None,
+            stdout_tty: self.inv.tty,
         }
     }
     pub fn predict(&self) -> Result<Prediction, Harness> {
@@ -537,6 +538,11 @@ pub fn gen_case(rng: &mut Rng) -> Case {
         inv.env.push(("JQ_COLORS".into(), "1;31:0;32::4".into()));
     }
     inv.exit_status = rng.chance(1, 4);
+    // one run in eight writes to a terminal: colours by default, unless NO_COLOR / -M
+    inv.tty = rng.chance(1, 8);
+    if inv.tty && rng.chance(1, 3) {
+        inv.env.push(("JQ_COLORS".into(), "0;33:1;35::4:1".into()));
+    }
     // ---- filter
     let filter = rng.pick(FILTERS).to_string();
     let mut need = |name: &str, kind: NamedKind, value: String| {
@@ -1050,6 +1056,9 @@ pub fn check(cfg: &Cfg) -> Result<i32, Harness> {
             record_digest(i, h.digest());
             let mut tally = Tally::default();
             tally.add(format!("runs:{}", case.stratum));
+            if case.inv.tty {
+                tally.add("reach:stdout_is_a_terminal");
+            }
             for f in &h.fired {
                 let kind = f.split(' ').nth(1).unwrap_or("?");
                 tally.add(format!("fired:{kind}"));
@@ -1148,6 +1157,7 @@ pub fn check(cfg: &Cfg) -> Result<i32, Harness> {
                 violations.extend(o.viol);
                 samples.extend(o.sample);
             }
+            crate::par::CaseEnd::Skipped => evaluations -= 1,
             other => {
                 let mut rng = Rng::for_run(cfg.seed, "C17lib", i as u64);
                 let case = super::c17lib::gen_case(&mut rng);
